@@ -61,16 +61,28 @@ class Undecidable(Exception):
 
 
 class Obligation:
-  __slots__ = ("label", "kind", "func", "hyps", "goal", "path", "line", "props", "clause", "inputs", "note")
+  __slots__ = ("label", "kind", "func", "hyps", "goal", "path", "line", "props", "clause", "inputs", "note", "alt_hyps")
 
-  def __init__(self, label, kind, func, hyps, goal, path, line, props, clause, inputs, note=""):
+  def __init__(self, label, kind, func, hyps, goal, path, line, props, clause, inputs, note="", alt_hyps=None):
     self.label, self.kind, self.func, self.hyps, self.goal = label, kind, func, hyps, goal
     self.path, self.line, self.props, self.clause, self.inputs, self.note = path, line, props, clause, inputs, note
+    self.alt_hyps = alt_hyps      # a SUBSET of hyps tried first (a proof from fewer hypotheses is a proof)
 
   def smt2(self):
     s = z3.Solver()
     for h in self.hyps:
       s.add(h)
+    s.add(z3.Not(self.goal))
+    return s.to_smt2()
+
+  def smt2_alt(self):
+    if self.alt_hyps is None:
+      return None
+    ids = {h.get_id() for h in self.hyps}
+    s = z3.Solver()
+    for h in self.alt_hyps:
+      if not isinstance(h, bool) and h.get_id() in ids:      # subset of the real hypotheses only
+        s.add(h)
     s.add(z3.Not(self.goal))
     return s.to_smt2()
 
@@ -194,7 +206,7 @@ class Engine:
   # ================================================================================================================
   # obligations
 
-  def emit(self, st, kind, label, goal, clause=None, line=0, props=None, note="", only_hyps=None):
+  def emit(self, st, kind, label, goal, clause=None, line=0, props=None, note="", only_hyps=None, alt_hyps=None):
     if not self.emit_enabled:
       return
     if isinstance(goal, bool):
@@ -220,7 +232,7 @@ class Engine:
       hyps = [h for h in hyps if h.get_id() in {c.get_id() for c in conj}]
     self.obligations.append(
         Obligation(label, kind, self.cur.target if self.cur else "?", hyps, goal, tuple(st.decisions[:st.dptr]), line,
-                   props, clause, dict(st.inputs), note))
+                   props, clause, dict(st.inputs), note, alt_hyps=alt_hyps))
 
   # ================================================================================================================
   # names / frames
@@ -477,6 +489,9 @@ class Engine:
   def implicit(self, st, exc, ok, node, what):
     """Implicit exception point: in total mode `ok` is an obligation; in every mode the path continues under `ok`."""
     if st.spec:
+      coll = st.__dict__.get("comp_collect")
+      if coll is not None and not (isinstance(ok, bool) and ok):
+        coll.append(ok)      # element expression of a comprehension over a symbolic sequence (see theories.comprehension)
       return
     if isinstance(ok, bool) and ok:
       return
@@ -1151,9 +1166,19 @@ class Engine:
     had = {k: (k in env) for k in extra}
     env.update(extra)
     st.spec_depth += 1
-    try:
+    gscopes = []       # begin_scope / end_scope: theory instances and lemma applications are dropped at the end of the
+    try:               # scope, the asserted facts are kept (dropping derived hypotheses is always sound)
       for text in stmts:
         text = " ".join(text.split())
+        if text == "begin_scope":
+          gscopes.append((len(st.pc), []))
+          continue
+        if text == "end_scope":
+          n0, keep = gscopes.pop()
+          del st.pc[n0:]
+          for g0 in keep:
+            st.assume(g0)
+          continue
         if text.startswith("assert ") or text.startswith("check "):
           only_check = text.startswith("check ")      # obligation that is NOT added to the path condition afterwards
           body = text[7:] if not only_check else text[6:]
@@ -1168,6 +1193,18 @@ class Engine:
               continue
           elif self.prop == "__value_pass__":
             pass
+          btxt = body.strip()
+          if (btxt.startswith("by(") or (btxt.startswith("implies(") and ", by(" in btxt)) and not only_check:
+            # isolated-premise hint at a hook site: same semantics as in hint lists
+            st.spec_depth -= 1
+            n_before = len(st.pc)
+            try:
+              self.process_hints(st, [C.Clause(btxt)], {}, label, line)
+            finally:
+              st.spec_depth += 1
+            if gscopes and len(st.pc) > n_before:
+              gscopes[-1][1].append(st.pc[-1])
+            continue
           g = self.truthy(st, self.ev(ast.parse(body.strip(), mode="eval").body, st))
           n_pc = len(st.pc)
           self.emit(st, "call-site", f"{label}:{body.strip()}", g, clause=body.strip(), line=line, props=props)
@@ -1175,6 +1212,8 @@ class Engine:
             del st.pc[n_pc:]
           else:
             st.assume(g)
+            if gscopes and not isinstance(g, bool):
+              gscopes[-1][1].append(g)
         elif text.startswith("let ") or "=" in text.split("(")[0]:
           t2 = text[4:] if text.startswith("let ") else text
           name, _, expr = t2.partition("=")
@@ -1823,6 +1862,8 @@ class Engine:
         del st.pc[n0:]
         if last_goal is not None:
           st.assume(last_goal)
+          if label.endswith("/body-end") and not scopes and not isinstance(last_goal, bool):
+            st.__dict__.setdefault("hint_facts", []).append(last_goal)
         continue
       fr = Frame(dict(overlay), st.frame, st.frame.module, fname=st.frame.fname)
       st.frames.append(fr)
@@ -1866,10 +1907,14 @@ class Engine:
                   only_hyps=list(prem_raw) + theory)
         st.assume(g)
         last_goal = g
+        if label.endswith("/body-end") and not scopes and not isinstance(g, bool):
+          st.__dict__.setdefault("hint_facts", []).append(g)
         continue
       self.emit(st, "hint", f"{label}/hint:{cl.text}", g, clause=cl.text, line=line, props=cl.props)
       st.assume(g)
       last_goal = g
+      if label.endswith("/body-end") and not scopes and not isinstance(g, bool):
+        st.__dict__.setdefault("hint_facts", []).append(g)
 
   def _is_concrete_while(self, s, st):
     return False
@@ -1919,12 +1964,23 @@ class Engine:
         raise Unsupported("unroll bound exceeded")
 
   def check_invs(self, st, lc, overlay, kind, label, line):
-    for cl, g in self.eval_invariants(st, lc, overlay):
-      self.emit(st, kind, f"{label}/{kind}:{cl.text}", g, clause=cl.text, line=line, props=cl.props)
+    n0 = len(st.pc)
+    pairs = self.eval_invariants(st, lc, overlay)
+    alt = None
+    if kind == "inv-preserved":
+      # small query first: the invariants assumed at the head of this iteration and everything the analysed iteration
+      # added (branch conditions, callee postconditions, hints, theory instances) - a subset of the hypotheses that
+      # leaves out the context before the loop
+      nh = st.__dict__.get("inv_head")
+      alt = list(st.pc[nh:]) if nh is not None and nh <= len(st.pc) else None
+    for cl, g in pairs:
+      self.emit(st, kind, f"{label}/{kind}:{cl.text}", g, clause=cl.text, line=line, props=cl.props, alt_hyps=alt)
 
   def assume_invs(self, st, lc, overlay):
+    n0 = len(st.pc)
     for cl, g in self.eval_invariants(st, lc, overlay):
       st.assume(g)
+    st.__dict__["inv_head"] = n0
 
   def havoc_loop(self, st, body, lc, extra_names=()):
     names = self.assigned_names(body) | set(extra_names) | {k for k in st.frame.env if k.startswith("g_")}
@@ -2423,6 +2479,9 @@ class Engine:
           continue
         st.assume(self.truthy(st, self.ev(cl.node, st)))
       for cl in ([] if vp else c.hints) + c.defines:
+        st.assume(self.truthy(st, self.ev(cl.node, st)))
+      for cl in getattr(c, "spec_axioms", []):
+        self.abstracted.add(f"axiom of the specification theory used by {c.qual}: {cl.text}")
         st.assume(self.truthy(st, self.ev(cl.node, st)))
     finally:
       st.spec_depth -= 1
